@@ -161,6 +161,16 @@ def _cf_case(rng):
     return dict(kind='cf', unit=unit, cal=cal, ref=ref, vals=[lib.show_rat(v) for v in vals], bnd=bnd, tdt=tdt)
 
 
+def _irregular_cases(rng):
+    """irregular axes whose first step equals (last - first) / (n - 1), on every run"""
+    out = []
+    for offs, unit in (([0, 6, 7, 18], 'hours'), ([0, 3, 4, 5, 12], 'hours'), ([0, 24, 30, 36, 96], 'hours'), ([0, 2, 3, 6], 'days')):
+        start = rng.randint(0, 400)
+        out.append(dict(kind='cf', unit=unit, cal=rng.choice(['standard', None, 'gregorian']), ref='2001-02-03 00:00:00',
+                        vals=[lib.show_rat(Fraction(start + o)) for o in offs], bnd='none', tdt='d'))
+    return out
+
+
 def gen(rng, tier):
     n = 500 if tier == 'quick' else 20000
     out = []
@@ -201,6 +211,7 @@ def gen(rng, tier):
             # pre: the CF variables were synthesised once before, for another step with the same start and count
             out.append(dict(kind='atv', sdate=sd, stime=st, tstep=T, flags=fl if rng.random() < 0.5 else None, n=nt,
                             pre=rng.random() < 0.4))
+    out += _irregular_cases(rng)
     return out
 
 
